@@ -278,6 +278,8 @@ class Interp:
             return int(r)
         if a is UNKNOWN or b is UNKNOWN or a == UNKNOWN or b == UNKNOWN:
             return UNKNOWN
+        if base in ("Div", "Rem") and ty in INT_BITS:
+            base = "I" + base      # integer division truncates: not a ring operation (never a rational-function quotient)
         v = ("symop", base, a, b)
         if "WithOverflow" in op:
             return ("tuple", [v, 0])
@@ -321,6 +323,8 @@ class Interp:
             if rv["op"] == "Neg" and isinstance(v, int):
                 bits = INT_BITS.get(rv["ty"], 64)
                 return (-v) & ((1 << bits) - 1)
+            if rv["op"] == "Not" and isinstance(v, tuple) and v[0] in ("sym", "symop") and rv["ty"] in INT_BITS and rv["ty"] != "bool":
+                return ("symop", "BitNot", v, None)
             if rv["op"] == "PtrMetadata":
                 t = v
                 if isinstance(t, tuple) and t[0] == "ref":
